@@ -8,9 +8,9 @@ from vlib import trajcorr
 ID = 'C01'
 GENS = ['units', 'consts']
 TARGETS = ['BC.Props.C01']
-PROP_FILES = ['BC/Props/C01.lean', 'BC/Lemmas/Vec.lean']
+PROP_FILES = ['BC/Props/C01.lean', 'BC/Lemmas/Vec.lean', 'BC/Lemmas/C01Conv.lean']
 THEOREMS = ['C01_step_is_scheme', 'C01_iterate_physics', 'C01_env_of_shot', 'C01_initial_state', 'C01_barrel_direction',
-            'C01_vacuum_closed_form', 'C01_vacuum_bound']
+            'C01_vacuum_closed_form', 'C01_vacuum_bound', 'C01_converges_partial', 'C01_first_order', 'C01_model_converges_partial']
 STATEMENTS = {
     'C01_step_is_scheme': 'the loop body is semi-implicit Euler for accel = g - rho |v-w| dbm(|v-w|/c) (v-w): v\' = v + dt accel, r\' = r + dt v\', dt = calc_step/max(1,|v-w|)',
     'C01_iterate_physics': 'every iteration applies that step with the wind of the segment active at the projectile\'s x and the atmosphere at station altitude + y',
@@ -18,14 +18,19 @@ STATEMENTS = {
     'C01_initial_state': 'muzzle = (0, -cos(cant) sh, -sin(cant) sh); velocity = mv (cos e cos a, sin e, cos e sin a); |v0| = |mv|',
     'C01_barrel_direction': 'elevation = look + cos(cant)(zero + rel), azimuth = sin(cant)(zero + rel); un-canted: vertical plane at look + zero + rel',
     'C01_vacuum_closed_form': 'density 0, ANY number of steps, ANY step-size sequence: x, z, v exact parabola; y = parabola + (g/2) sum dt^2',
+    'C01_converges_partial': 'PARTIAL (stability and consistency of the step map are hypotheses): any one-step scheme that expands distances by <= 1+rho and reproduces the sampled '
+                             'exact solution up to eps per step is within eps*n*exp(rho*n) after n steps (discrete Lax/Groenwall)',
+    'C01_first_order': 'PARTIAL: with rho = L h and eps = C h^2 the error is <= C h T exp(L T), T = n h: first order in the maximum step',
+    'C01_model_converges_partial': 'PARTIAL: instance for the model\'s own step map in a fixed environment, for every distance on states',
     'C01_vacuum_bound': '|y - parabola| <= |g|/2 * calc_step * t',
 }
 TRUSTED = [
     'Lean 4.33.0 kernel; Mathlib; axioms propext, Classical.choice, Quot.sound',
     'hand-written model BC/Model/Traj.lean tied to _integrate by bit-exact correspondence of whole trajectories (op fire) and of the initial state (op init) over '
     'wind segments, look/cant/zero/relative angles, station atmospheres, custom and shipped tables, solver step sizes',
-    'CONVERGENCE to the exact ODE solution is NOT proved (the theorems identify the scheme and give the exact vacuum error term); first-order convergence and the '
-    'Richardson clause are covered by the search against an independent RK4 reference only',
+    'CONVERGENCE is proved only conditionally (C01_converges_partial: Lipschitz stability and O(h^2) consistency of the step map are hypotheses; the real field is '
+    'only piecewise Lipschitz: wind switches, curve-segment switches, the 30-ft shortcut); unconditionally the theorems identify the scheme and give the exact vacuum '
+    'error term; first-order convergence for real drag and the Richardson clause are covered by the search against an independent RK4 reference',
 ]
 ASSUME = ['the reference integrates the same black-box coefficient functions (Atmo.get_density_factor_and_mach_for_altitude, TrajectoryCalc.drag_by_mach), as the property\'s '
           'observe_at prescribes, with classical RK4 at 1/32 of the solver step']
